@@ -9,8 +9,12 @@
 (* never gets window does not block the other while the connection window is open.          *)
 EXTENDS Integers, Sequences, FiniteSets, TLC, Json
 CONSTANTS NS, Bodies, CHUNK, Wins, ConnWins, GrantSizes, MaxGrants,
-          DEV_EmptyChunkStalls      \* pinned tree: an empty chunk reserves 0 and waits for ever
-VARIABLES body, idx, rem, reserved, win, conn, sent, phase, grants, hist
+          DEV_EmptyChunkStalls,     \* pinned tree: an empty chunk reserves 0 and waits for ever
+          Resets,                   \* TRUE: the peer may reset a stream at any time
+          DEV_ResetKeepsPulling     \* a sender that only leaves the capacity loop, not the body loop, when poll_capacity says the stream is gone
+VARIABLES body, idx, rem, reserved, win, conn, sent, phase, grants, hist,
+          rst,          \* streams the peer has reset
+          after         \* chunks pulled from a stream's body after its reset
 
 Streams == 1..NS
 \* body chunkings (sizes in units; CHUNK is the per-reservation cap): empty chunks, chunks larger than CHUNK and than any window
@@ -20,37 +24,52 @@ Min(a, b) == IF a < b THEN a ELSE b
 Init == /\ body \in [Streams -> ChunkSets] /\ idx = [s \in Streams |-> 1] /\ rem = [s \in Streams |-> 0]
         /\ reserved = [s \in Streams |-> 0] /\ win \in [Streams -> Wins] /\ conn \in ConnWins
         /\ sent = [s \in Streams |-> 0] /\ phase = [s \in Streams |-> "poll"] /\ grants = 0 /\ hist = <<>>
+        /\ rst = {} /\ after = [s \in Streams |-> 0]
 Total(s) == LET F[i \in 0..Len(body[s])] == IF i = 0 THEN 0 ELSE F[i-1] + body[s][i] IN F[Len(body[s])]
 \* body.poll_next
 PollBody(s) ==
   /\ phase[s] = "poll"
-  /\ IF idx[s] > Len(body[s]) THEN /\ phase' = [phase EXCEPT ![s] = "done"] /\ UNCHANGED <<idx, rem, reserved>>
+  /\ IF idx[s] > Len(body[s]) THEN /\ phase' = [phase EXCEPT ![s] = "done"] /\ UNCHANGED <<idx, rem, reserved, after>>
      ELSE LET c == body[s][idx[s]] IN
           /\ idx' = [idx EXCEPT ![s] = @ + 1]
+          /\ after' = (IF s \in rst /\ c > 0 THEN [after EXCEPT ![s] = @ + 1] ELSE after)      \* (empty chunks are skipped without touching the stream)
           /\ IF c = 0 /\ ~DEV_EmptyChunkStalls THEN /\ phase' = phase /\ UNCHANGED <<rem, reserved>>
              ELSE /\ rem' = [rem EXCEPT ![s] = c] /\ reserved' = [reserved EXCEPT ![s] = Min(c, CHUNK)] /\ phase' = [phase EXCEPT ![s] = "cap"]
-  /\ UNCHANGED <<body, win, conn, sent, grants, hist>>
+  /\ UNCHANGED <<body, win, conn, sent, grants, hist, rst>>
 \* poll_capacity resolves with some capacity 1..min(reserved, stream window, connection window)
 Capacity(s) ==
-  /\ phase[s] = "cap" /\ reserved[s] > 0 /\ win[s] > 0 /\ conn > 0
+  /\ phase[s] = "cap" /\ s \notin rst /\ reserved[s] > 0 /\ win[s] > 0 /\ conn > 0
   /\ \E cap \in 1..Min(reserved[s], Min(win[s], conn)) :
        LET n == Min(rem[s], cap) IN
        /\ sent' = [sent EXCEPT ![s] = @ + n] /\ win' = [win EXCEPT ![s] = @ - n] /\ conn' = conn - n
        /\ rem' = [rem EXCEPT ![s] = @ - n]
        /\ IF rem[s] - n = 0 THEN /\ phase' = [phase EXCEPT ![s] = "poll"] /\ reserved' = [reserved EXCEPT ![s] = 0]
           ELSE /\ phase' = phase /\ reserved' = [reserved EXCEPT ![s] = Min(rem[s] - n, CHUNK)]
-  /\ UNCHANGED <<body, idx, grants, hist>>
+  /\ UNCHANGED <<body, idx, grants, hist, rst, after>>
+\* poll_capacity on a stream the peer has reset yields None: the response task drops the body and returns
+Gone(s) ==
+  /\ phase[s] = "cap" /\ s \in rst
+  /\ phase' = [phase EXCEPT ![s] = IF DEV_ResetKeepsPulling THEN "poll" ELSE "dropped"]
+  /\ rem' = [rem EXCEPT ![s] = 0] /\ reserved' = [reserved EXCEPT ![s] = 0]
+  /\ UNCHANGED <<body, idx, win, conn, sent, grants, hist, rst, after>>
+\* the peer resets a stream whose response is not complete
+PeerReset(s) ==
+  /\ Resets /\ s \notin rst /\ phase[s] \notin {"done", "dropped"} /\ rst = {}
+  /\ rst' = rst \cup {s}
+  /\ UNCHANGED <<body, idx, rem, reserved, win, conn, sent, phase, grants, hist, after>>
 \* the peer releases window
 Grant(s) == /\ grants < MaxGrants /\ \E k \in GrantSizes : /\ win' = [win EXCEPT ![s] = @ + k] /\ conn' = conn + k /\ hist' = Append(hist, <<s, k>>)
-            /\ grants' = grants + 1 /\ UNCHANGED <<body, idx, rem, reserved, sent, phase>>
-Next == \E s \in Streams : PollBody(s) \/ Capacity(s) \/ Grant(s)
-Spec == Init /\ [][Next]_<<body, idx, rem, reserved, win, conn, sent, phase, grants, hist>>
+            /\ grants' = grants + 1 /\ UNCHANGED <<body, idx, rem, reserved, sent, phase, rst, after>>
+Next == \E s \in Streams : PollBody(s) \/ Capacity(s) \/ Grant(s) \/ Gone(s) \/ PeerReset(s)
+Spec == Init /\ [][Next]_<<body, idx, rem, reserved, win, conn, sent, phase, grants, hist, rst, after>>
 
 NeverOver == \A s \in Streams : sent[s] <= Total(s) /\ win[s] >= 0
-Exact == \A s \in Streams : phase[s] = "done" => sent[s] = Total(s)
+Exact == \A s \in Streams : (phase[s] = "done" /\ s \notin rst) => sent[s] = Total(s)
+(* the body of a stream the peer has reset is not pulled on: at most the (non-empty) chunk that was being fetched when the reset arrived *)
+ResetStopsPulling == \A s \in Streams : after[s] <= 1
 (* a stream that waits for capacity with both windows open can always take a step (no hang) *)
 NoHang == \A s \in Streams : (phase[s] = "cap" /\ win[s] > 0 /\ conn > 0) => reserved[s] > 0
 Independent == \A s, t \in Streams : (s # t /\ phase[s] = "cap" /\ win[s] = 0 /\ phase[t] = "cap" /\ win[t] > 0 /\ conn > 0) => reserved[t] > 0
-EmitCase == (\A s \in Streams : phase[s] = "done") => PrintT(<<"CASE", ToJson([bodies |-> body, grants |-> hist])>>)
-View == <<body, idx, rem, reserved, win, conn, sent, phase>>
+EmitCase == (rst = {} /\ \A s \in Streams : phase[s] = "done") => PrintT(<<"CASE", ToJson([bodies |-> body, grants |-> hist])>>)
+View == <<body, idx, rem, reserved, win, conn, sent, phase, rst, after>>
 =======================================================================================
